@@ -1,4 +1,5 @@
 import DendroModel.Model.C15
+import DendroModel.Model.C15Ext
 open DendroModel DendroModel.C15
 
 /-- filter field: `*` no filter, `-` empty set, else comma-separated ids -/
@@ -9,7 +10,11 @@ def parseFilt (s : String) : Option (T → Bool) :=
     | some ids => some (fun t => ids.contains t.id)
     | none => none
 
+def parseFlag (s : String) : Option Bool :=
+  if s == "1" then some true else if s == "0" then some false else none
+
 def ids (l : List T) : String := natList (l.map T.id)
+def eids (l : List E) : String := natList (l.map fun e => e.head.id)
 
 def evs (l : List Ev) : String :=
   " ".intercalate (l.map fun
@@ -17,41 +22,57 @@ def evs (l : List Ev) : String :=
     | .after i => s!"a{i}"
     | .leaf i => s!"l{i}")
 
+/-- `iter <kind> <start id> <det> <excl> <incl> <filter> <ages> <tree…>`
+`det` = the start node has been spliced out of its parent (it is the seed of its own `Tree`),
+`excl` = exclude_seed_node/edge, `incl` = `inclusive` of `ancestor_iter` -/
 def handle (ws : List String) : String :=
   match ws with
-  | "iter" :: kind :: start :: excl :: filt :: ages :: rest =>
-    match start.toNat?, parseFilt filt, parseTree rest with
-    | some start, some keep, some (tree, []) =>
+  | "iter" :: kind :: start :: det :: excl :: incl :: filt :: ages :: rest =>
+    match start.toNat?, parseFlag det, parseFlag excl, parseFlag incl, parseFilt filt, parseTree rest with
+    | some start, some det, some ex, some inc, some keep, some (tree, []) =>
       match tree.find? start with
       | none => "bad-start"
       | some t =>
-        let hasParent := start != tree.id
-        let ex := excl == "1"
+        let hasParent := start != tree.id && !det
+        let ekeep := fun (e : E) => keep e.head
         match kind with
         | "pre" => ids (preIter keep t)
         | "post" => ids (postIter keep t)
         | "level" => ids (levelIter keep t)
         | "leaf" => ids (leafIter keep t)
-        | "in" => match inIter keep t with
+        | "in" => match inRun keep t with
           | some l => ids l
           | none => "TypeError"
         | "preint" => ids (preIter (internalKeep ex t.id hasParent keep) t)
         | "postint" => ids (postIter (internalKeep ex t.id hasParent keep) t)
-        | "preedge" => ids ((preEdgeIter (fun e => keep e.head) t).map E.head)
-        | "postedge" => ids ((postEdgeIter (fun e => keep e.head) t).map E.head)
-        | "preintedge" => ids ((preEdgeIter (fun e => internalKeep ex t.id hasParent keep e.head) t).map E.head)
-        | "postintedge" => ids ((postEdgeIter (fun e => internalKeep ex t.id hasParent keep e.head) t).map E.head)
+        | "preedge" => eids (preEdgeIter ekeep t)
+        | "postedge" => eids (postEdgeIter ekeep t)
+        | "preintedge" => eids (preEdgeIter (fun e => internalKeep ex t.id hasParent keep e.head) t)
+        | "postintedge" => eids (postEdgeIter (fun e => internalKeep ex t.id hasParent keep e.head) t)
+        | "leveledge" => eids (levelEdgeIter ekeep t)
+        | "leafedge" => eids (leafEdgeIter ekeep t)
+        | "inedge" => match inEdgeIter ekeep t with
+          | some l => eids l
+          | none => "TypeError"
+        | "anc" => match ancIter keep inc tree start with
+          | some l => ids l
+          | none => "bad-start"
+        | "nodes" => ids (treeNodes keep t)
+        | "leafnodes" => ids (treeLeafNodes t)
+        | "internalnodes" => if hasParent then "bad-start" else ids (treeInternalNodes ex t)
+        | "edges" => eids (treeEdges ekeep t)
+        | "leafedges" => eids (treeLeafEdges t)
+        | "internaledges" => if hasParent then "bad-start" else eids (treeInternalEdges ex t)
         | "apply" => evs (applyTrace t)
         | "len" => toString (lenTree t)
         | "ageasc" | "agedesc" | "ageascint" | "agedescint" =>
           match (ages.splitOn ",").mapM Frac.parse with
           | some as =>
-            let arr := as.toArray
-            let age := fun (x : T) => arr[x.id]!
-            ids (ageIter age (kind == "agedesc" || kind == "agedescint") (kind == "ageasc" || kind == "agedesc") keep t)
+            if as.length < tree.size then "bad-ages" else
+            ids (ageIter (ageOf as) (kind == "agedesc" || kind == "agedescint") (kind == "ageasc" || kind == "agedesc") keep t)
           | none => "bad-ages"
         | _ => "bad-kind"
-    | _, _, _ => "bad-op"
+    | _, _, _, _, _, _ => "bad-op"
   | _ => "bad-op"
 
 def main : IO Unit := do driverLoop (← IO.getStdin) handle
